@@ -21,7 +21,10 @@ PROPERTY = {
                    "least one encoding; every returned encoding decodes (same mode, same address) to an instruction whose length is "
                    "the length of the encoding and whose mnemonic, mode, printed text and operand expressions equal those of the "
                    "original (the width of a constant operand or constant address is not compared: the address-size / operand-size alternates denote the same value). Failures are tagged with architecture, mnemonic and kind (exception type of asm, no encoding, "
-                   "candidate undecodable / of another length / decoding to another instruction). Bounded: exploration, not proof.",
+                   "candidate undecodable / of another length / decoding to another instruction). Bounded: exploration, not proof. "
+                   "Deductive layer (shape-bounded, labelled): cpu.sign_ext, with which the immediate encoders decide whether a value fits a "
+                   "narrower field, is executed symbolically (pyvc, z3) for 14 (field width, operand width) shapes and every value: the "
+                   "result keeps the low bits, copies the sign bit into the upper bits and fits the operand.",
     "rule": "one case = one architecture / mode, one chunk of 100 byte strings and one group of failure classes (the classes of one known finding of that architecture, or every other class)",
     "trusted_base": ["CPython executes the real decoders and assemblers; the sampling and the comparison are written in props/C15.py"],
     "assumptions": ["seeded family: 14 architectures / modes x 20 chunks quick (x 200 chunks thorough) x (100 random strings + the boundary variants of 5 of them: last 1 / 2 / 4 / 8 bytes replaced by 0, 1 and the signed / unsigned limits of every narrower width, both byte orders)",
@@ -230,7 +233,40 @@ class AsmCases(BoundedContract):
             len(mine), n, len(seen), " ;; ".join(list(seen.values())[:4]), " ".join(sorted(seen))), n > 0)
 
 
+def _mk_sign_ext_target(s_in, s_out):
+    def body(ctx):
+        """deductive layer: cpu.sign_ext, which the immediate encoders use to decide whether a value fits a narrower field
+        (v == sign_ext(v & mask, field, operand)): for the shape (s_in, s_out) and every v, the result is the two's complement
+        sign extension of the low s_in bits of v to s_out bits"""
+        from miasm.core import cpu
+        from vc.terms import And, Or
+        v = ctx.int("v", 0, (1 << (s_out + 8)) - 1)         # wider than the operand: the function masks its input
+        r = ctx.call(cpu.sign_ext, v, s_in, s_out)
+        if r.raised:
+            ctx.check("no-raise", False, kind="no-raise")
+            return
+        ctx.cover("ret")
+        low = v % (1 << s_in)
+        ctx.check("fits-the-operand", And(r.value >= 0, r.value < (1 << s_out)))
+        ctx.check("low-bits-kept", r.value % (1 << s_in) == low)
+        ctx.check("upper-bits-copy-the-sign", Or(And(low < (1 << (s_in - 1)), r.value == low),
+                                                 And(low >= (1 << (s_in - 1)), r.value == low + (1 << s_out) - (1 << s_in))))
+    return body
+
+
+def proof_targets():
+    from harness.core import Target
+    from miasm.core import cpu
+    ts = []
+    for s_in, s_out in ((8, 8), (8, 16), (8, 32), (8, 64), (16, 16), (16, 32), (16, 64), (32, 32), (32, 64), (64, 64), (1, 8), (5, 32), (21, 32), (26, 32)):
+        t = Target("C15/sign_ext/%d-to-%d" % (s_in, s_out), [cpu.sign_ext], _mk_sign_ext_target(s_in, s_out),
+                   kind="bounded", bound="14 (field width, operand width) shapes; the value is symbolic", params={"s_in": s_in, "s_out": s_out})
+        t.expect_covers = ["ret"]
+        ts.append(t)
+    return ts
+
+
 def targets(tier):
-    return chunked(AsmCases, "C15/asm", 16, tier)
+    return proof_targets() + chunked(AsmCases, "C15/asm", 16, tier)
 
 
